@@ -75,6 +75,14 @@ def plan(tier, seed):
     vecs = [core[0]] if tier == "quick" else [core[0], core[2], core[4]]
     out += L.split_plan("e2e-ordered:3x3", pp, omenu, 40, {"mode": "e2e", "algo": "ext_spfs", "costs": vecs})
     out += L.split_plan("e2e-unordered:3x3", pp, umenu, 40, {"mode": "e2e", "algo": "superdtl", "costs": vecs})
+    # operation histories: ONE multifurcating input object per shape pair, solved again and again after in-place edits of
+    # its trees (ancestor names, a colour) and of its leaf assignment / syntenies
+    for osh, ssh in pp:
+        if not (T(osh).is_binary() or T(ssh).is_binary()):
+            continue   # star x star (9 refinement pairs per solve) is left to the stateless slices
+        for algo, menu in (("ext_spfs", [("a",), ("a", "b")]), ("superdtl", [("a",), ("a", "b"), ("b",)])):
+            out.append({"slice": "e2e-session:3x3", "mode": "e2e", "algo": algo, "osh": osh, "ssh": ssh, "menu": menu,
+                        "costs": [core[0]], "session": True})
     if tier == "thorough":
         p4 = poly_shape_pairs(4, 3, min_obj=4, one_ternary_obj=True)
         out += L.split_plan("e2e-unordered:4x3(one 3-ary)", p4, umenu, 25, {"mode": "e2e", "algo": "superdtl", "costs": [core[0], core[1]]})
@@ -243,8 +251,12 @@ def oracle_e2e(algo, O, S, leafmap, leafsyn, costs):
     return best, keys, pairs, attain
 
 
-def check_e2e(algo, O, S, leafmap, leafsyn, costs):
-    """-> (bad, nontrivial)"""
+SESSION_COLOURS = ["AA00AA", "00AA00", "0000AA"]
+
+
+def check_e2e(algo, O, S, leafmap, leafsyn, costs, session=None, epoch=0):
+    """-> (bad, nontrivial).  With a session the SAME input object is solved again after its trees were edited in place
+    (ancestor names and the colour change with the epoch) and its leaf data updated in place."""
     fn, model, _ = L.SOLVERS[algo]
     is_ord = model == "ordered"
     best, want, pairs, attain = oracle_e2e(algo, O, S, leafmap, leafsyn, costs)
@@ -252,9 +264,19 @@ def check_e2e(algo, O, S, leafmap, leafsyn, costs):
     onames = A.default_names(O, "o")
     snames = A.default_names(S, "s")
     ofe = {v: {"color": "AA00AA"} for v in O.internal[:1]}
+    if session is not None:
+        onames = {v: (f"o{v}e{epoch}" if O.children[v] else f"o{v}") for v in range(O.n)}
+        ofe = {v: {"color": SESSION_COLOURS[epoch % 3]} for v in O.internal[:1]}
+        for v in O.internal:
+            session.onode[v].name = onames[v]
+        for v, f in ofe.items():
+            session.onode[v].add_feature("color", f["color"])
     results = {}
     for policy in ("ALL", "ANY"):
-        inp, onode, snode = A.build_input(O, S, leafmap, costs, leafsyn, onames, snames, ofeats=ofe, unordered=not is_ord)
+        if session is not None:
+            inp, onode, snode = session.set(leafmap, costs, leafsyn)
+        else:
+            inp, onode, snode = A.build_input(O, S, leafmap, costs, leafsyn, onames, snames, ofeats=ofe, unordered=not is_ord)
         oleaf = {onode[v].name: v for v in O.leaves}
         sleaf = {snode[v].name: v for v in S.leaves}
         oinfo = {frozenset(O.leaves_under(v)): (onames[v], ofe.get(v, {}).get("color")) for v in range(O.n)}
@@ -358,15 +380,24 @@ def run_shard(shard, tier, seed):
         osh, ssh = shard["osh"], shard["ssh"]
         O, S = T(osh), T(ssh)
         algo = shard["algo"]
+        sess = None
+        if shard.get("session"):
+            sess = A.Session(O, S, labelled=True, unordered=(L.SOLVERS[algo][1] != "ordered"))
+        epoch = 0
         for leafmap, leafsyn in L.labelled_inputs(O, S, shard["menu"], shard.get("part")):
             if algo == "ext_spfs" and not ordered.root_orders(leafsyn):
                 continue
             for costs in shard["costs"]:
                 n_eval += 1
-                bad, is_nt = check_e2e(algo, O, S, leafmap, leafsyn, costs)
+                epoch += 1
+                bad, is_nt = check_e2e(algo, O, S, leafmap, leafsyn, costs, session=sess, epoch=epoch)
                 if is_nt:
                     nt += 1
                 case = dict(L.case_json(osh, ssh, leafmap, leafsyn, costs, algo), mode="e2e")
+                if sess is not None:
+                    case["session_shard"] = A.pack(shard)
+                    if bad:
+                        bad = ("session_" + bad[0], f"solve #{epoch} of the same input object after in-place edits: " + bad[1])
                 if bad:
                     report(bad[0], bad[1], case)
                 if not samples:
@@ -376,6 +407,10 @@ def run_shard(shard, tier, seed):
 
 def replay(v):
     c = v["case"]
+    if c.get("session_shard"):
+        res = run_shard(A.unpack(c["session_shard"]), "quick", 0)
+        hits = [x for x in res["violations"] if x["subcheck"] == v.get("subcheck")] or res["violations"]
+        return {"violated": bool(hits), "detail": (hits[0]["subcheck"] + ": " + hits[0]["detail"]) if hits else None}
     if c["mode"] == "enum":
         bad = check_binarize(shape_from_json(c["shape"]), c.get("offset", 0))
         return {"violated": bool(bad), "detail": bad}
